@@ -256,7 +256,7 @@ def _job(job):
     try:
         d = V.sym_data("v")
         ty = ctake["params"][0]["type"]
-        isval = U.conforms(ty, d.v, depth, width)
+        isval = U.conforms(ty, d.v, depth, width, list_records=True)
         want = conforms_schema(schema, defs, d.v, depth + 3, width)
         s = z3.SimpleSolver()
         s.set("timeout", 30000)
